@@ -1,3 +1,4 @@
+import attrs
 import numpy as np
 
 import tak
@@ -47,11 +48,7 @@ def transform_position(sym, pos):
             oi, oj, _ = ix[i, j]
             sqs[oi + oj * pos.size] = pos[i, j]
 
-    return tak.Position.from_squares(
-        tak.Config(size=pos.size),
-        sqs,
-        pos.ply,
-    )
+    return attrs.evolve(pos, board=sqs)
 
 
 def transform_move(sym, move, size):
